@@ -56,6 +56,12 @@ CLAIMED = {
         "note": "Samples the sequence space by seed (the property text asks for exhaustive bounded enumeration, which is model checking, not this family); evidence reports distinct op prefixes of length <= 3 visited. CPU only; exceptions under float16/bfloat16 are tolerated and counted.",
         "technique": TECH + "seeded operation sequences against a reference dtype state machine, default-dtype fault",
     },
+    "C14": {
+        "text": "In seeded float64 worlds (stock kind, derivative, features with/without the recurrent prev_hedge input, smooth model, H in {1,2} incl. a listed hedge, cost zero/positive, 8 criteria incl. OCE with its own parameter and torch losses) and after short histories (re-simulation, a one-epoch fit, a hedge on another batch) the autograd gradient of exactly the scalar that is back-propagated - criterion(compute_portfolio, payoff) on frozen buffers, and compute_loss under RNG replay (F7) - is compared with central finite differences along seeded unit directions (incl. the gradient direction) over model and criterion parameters. A graph-continuity monitor at the per-step seam localises a detached recurrence. price() and compute_loss(enable_grad=False) must carry no graph under both ambient grad modes (F5).",
+        "design_ref": "DESIGN.md 6/C14",
+        "note": "Finite differences are the oracle (h = 1e-6(1+|theta|), threshold 1e-4 rel + 1e-9 abs, mismatch must persist for h/10 and 10h); float64 and smooth activations only.",
+        "technique": TECH + "RNG-replayed loss as a deterministic function of parameters, finite-difference oracle, grad-mode faults, per-step graph monitor",
+    },
     "C15": {
         "text": "fit() is run in seeded configurations (k = 0..3 epochs, n_paths, n_times, validation on/off, optimiser class or instance of SGD / SGD+momentum / Adam / Adadelta, materialised / lazy / dropout models, prev_hedge, H in {1,2}, initial states, 4 criteria, a second fit on the same hedger) under ambient grad-mode (F5) and leftover train/eval mode (F6) faults, and its whole interaction history is recorded through public seams (recording optimiser subclass, simulate wrapper, RecModel, recording criterion). History oracles: sequence grammar per epoch (one training batch, one loss, one step, n_times validation batches), exactly k steps of the supplied/constructed optimiser over exactly the model parameters, batch size / initial state forwarded, fresh batches, training forwards in train mode with grad, validation forwards in eval mode without grad, returned history = mean of the recorded validation losses (None when off), parameters change only inside step(); step-local refinement: the gradient stepped on equals the gradient of the loss recomputed on that epoch's recorded batch with the pre-step parameters (rules out accumulation); final parameters and history equal an explicit simulate/loss/backward/step reference loop under the same torch seed (F7).",
         "design_ref": "DESIGN.md 6/C15",
